@@ -116,6 +116,17 @@ impl J {
             }
         }
     }
+    /// does some object repeat a key?
+    pub fn has_dup(&self) -> bool {
+        match self {
+            J::A(l) => l.iter().any(|x| x.has_dup()),
+            J::O(l) => {
+                let mut seen = std::collections::HashSet::new();
+                l.iter().any(|(k, v)| !seen.insert(k.as_str()) || v.has_dup())
+            }
+            _ => false,
+        }
+    }
     /// all node paths (index lists), root first
     pub fn paths(&self) -> Vec<Vec<usize>> {
         fn go(j: &J, cur: &mut Vec<usize>, out: &mut Vec<Vec<usize>>) {
